@@ -215,7 +215,8 @@ def rule_o1(ctx, facts):
                     for kind, data, pt in fl.sources(x) if x is not None else []:
                         if kind == "field":
                             fields |= set(place_fields(data))
-                    if ("reclaim::CompareExchangeError", "new") in fields:
+                    from .anchors import cas_failure_fields
+                    if fields & cas_failure_fields(facts)[0]:
                         frees.add(f.point)
             ok = bool(err_edges) and bool(frees)
             leak = None
@@ -363,7 +364,8 @@ def rule_o3_put(ctx, facts, as_rule="O3"):
             dl = c.dst_local()
             for blk in range(len(put.blocks)):
                 cd = cond_of(put, blk)
-                if cd and cd["kind"] == "is_null" and cd.get("arg") in fl.copies_of(dl):
+                # "nothing found, a new node was linked": a null pointer, or None when the routine returns an Option
+                if cd and cd["kind"] in ("is_null", "is_none") and cd.get("arg") in fl.copies_of(dl):
                     publish_edges[(blk, cd["true"])] = "inserted into the tree bin"
     from .rules_c05 import put_events
     pc, pe = put_events(facts, put)
@@ -674,11 +676,18 @@ def rule_o6(ctx, facts):
             for c0 in v.bin_calls:
                 b0 = c0.dst_local()
                 exact.add(b0)
-                # single-definition temporaries copied from it
-                for l in range(len(b.locals)):
-                    ds = [d for d in b.defs.get(l, []) if d[1] in ("assign", "call", "arg")]
-                    if len(ds) == 1 and ds[0][1] == "assign" and "use" in ds[0][2]["rv"] and op_local(ds[0][2]["rv"]["use"]) == b0 and not b.local_name(l):
-                        exact.add(l)
+                # single-definition locals copied from it, transitively: the same value under another name (a temporary, or the
+                # variable a helper's result is destructured into)
+                grew = True
+                while grew:
+                    grew = False
+                    for l in range(len(b.locals)):
+                        if l in exact:
+                            continue
+                        ds = [d for d in b.defs.get(l, []) if d[1] in ("assign", "call", "arg")]
+                        if len(ds) == 1 and ds[0][1] == "assign" and "use" in ds[0][2]["rv"] and op_local(ds[0][2]["rv"]["use"]) in exact:
+                            exact.add(l)
+                            grew = True
                 tl = op_root(c0.args[0])
                 if tl is not None:
                     origin.setdefault(v.region.call.point, set()).update(fl.closure_locals(tl))
@@ -744,7 +753,25 @@ def rule_o7(ctx, facts):
         for h, cs in sorted(cons.items()):
             # definitions of the head: from a fresh allocation (Shared::boxed) or a null re-initialisation
             fresh, nulls = [], []
-            for pt, kind, data in b.defs.get(h, []):
+            # definitions of the head, including stores through a `&mut` reference to it (`*head = new_node` in a local helper that
+            # received `&mut low`)
+            hdefs = list(b.defs.get(h, []))
+            for bi2, blk2 in enumerate(b.blocks):
+                for si2, st2 in enumerate(blk2["stmts"]):
+                    if st2["k"] == "assign" and st2["dst"]["proj"] == ["deref"] and "use" in st2["rv"]:
+                        r0, seen0 = st2["dst"]["local"], set()
+                        while r0 is not None and r0 not in seen0:
+                            seen0.add(r0)
+                            srcs0 = [x for x in fl.sources(r0) if x[0] != "partial"]
+                            if len(srcs0) != 1:
+                                break
+                            k0, d0, _ = srcs0[0]
+                            if k0 == "ref" and not d0["proj"]:
+                                if d0["local"] == h:
+                                    hdefs.append((Point(bi2, si2), "assign", st2))
+                                break
+                            r0 = d0 if k0 == "copy" else (d0["local"] if k0 == "ref" and d0["proj"] == ["deref"] else None)   # copy / reborrow
+            for pt, kind, data in hdefs:
                 src = None
                 if kind == "assign" and "use" in data["rv"]:
                     src = op_root(data["rv"]["use"])
@@ -867,6 +894,10 @@ def rule_o8(ctx, facts):
 
 
 def run(ctx, facts):
+    ctx.rule("O9", "lock -> re-validate the head -> only then unlink and retire (rule L1 of C01): a removal carried out on a bin that a resize "
+                   "has superseded retires a value that the new table's copy of the entry still shares", floor=11)
+    from .rules_c01 import rule_l1
+    rule_l1(ctx, facts, rule="O9")
     ctx.rule("O8", "a loop retiring the nodes of a superseded list is left only when its cursor is exhausted", floor=2)
     rule_o8(ctx, facts)
     ctx.rule("O7", "a private list of fresh tree nodes is handed to exactly one of TreeBin::new / drop_tree_nodes on every path", floor=3,
